@@ -232,12 +232,23 @@ def run(r):
               "observed through 'is defined', 'is none', {{ p }}, {{ [p] }} and error-or-not; quick: literal/variable and macro/caller alternate over the box, thorough: full product; "
               "cases with keyword arguments again with *[..] / **{..} splats and (macros) from Rust through State::call_macro with a Kwargs value; "
               "the random generator passes foldable values (none, undefined, false, 0, '', []) in one of five argument slots, positional or keyword, also to caller(), "
-              "and observes parameters with is none / is defined")
+              "and observes parameters with is none / is defined; "
+              "the box also calls the macro BY A CALL BLOCK ({% call m(args) %} / {% call(x) m(args) %}: literal keyword arguments = the static fast path of compile_call_args, variables = the slow path, "
+              "macro that renders caller() / caller(7) or never mentions caller), and the splat twin comes in three forms (all through *[..] / **{..}; first argument plain, the rest behind it in splats; splats first, last argument plain); "
+              "AUTO-ESCAPE MODES: every generated program also runs under one of five modes — esc-ident (AutoEscape::Custom + a formatter that writes values as they are: captures are marked safe, the output must be the reference's) "
+              "or against its NEUTRAL TWIN under HTML escaping, JSON escaping, inside {% autoescape true %}, and under a formatter that brackets values marked safe: the twin has the same documented meaning "
+              "(statements that do nothing inserted into bodies, a body wrapped in {% if true %}, template data split in two, a run of statements captured by a set-block / macro / call block and printed; "
+              "the Lean reference semantics renders both and must render them alike, else the case is reported as broken) but other body shapes, and both renders must be equal; "
+              "the box of fast-path shapes (c03 shapes): 22 constructs with a body (set-block plain / filtered, macro, macro with keyword call, caller(), top level, if, else, for, for-else, with, filter-blocks, printed macro, call blocks plain / literal keyword / parameter, "
+              "failing if / elif / for / loop-filter / with heads) x 11 body shapes (empty, template data only, one character, one literal, one variable, one safe variable, data+expression, one nested if / for, one assignment, nested set-block) "
+              "x 8 ways of looking at the captured value, each as a plain case, under esc-ident and as twin pairs under the four other modes; "
+              "generator axes added: bodies may be empty, loop filters read the ENCLOSING loop's loop.*, default filter applied to none, idiom self-rebind (a macro / call-block body re-binds an enclosing name from its own old value: set v = f(v), with v = f(v), with a = .., v = f(a, v), for v in [v, ..], set-block v printing v, tuple assignment, guarded set, loop over v filtered by v)")
     r.assumptions = [
         "programs deeper than 6 / larger than 40 nodes behave compositionally like the sampled ones (proved for the reference interpreter's laws, sampled for the engine)",
         "argument-binding box: at most two parameters; splats are dict / list literals (not map values of the render context); calls from Rust go through State::call_macro",
         "macro defaults of generated programs do not refer to sibling parameters (the engine binds parameters back to front — recorded finding, probed by the sb cases); recursion is bounded by a literal counter; macro values are stored under other names and passed as arguments, but not put into lists/maps or printed",
         "context values are ints (incl. the i64 limits), strings, safe strings, bools, none, lists, pairs and string-keyed maps: no floats, bytes, custom objects or one-shot iterators (outside the value model of the reference semantics)",
+        "auto-escaping: the safe mark itself has no reference semantics of its own (the value model folds safe and plain strings); it is judged through esc-ident (values unchanged) and through twin equality under HTML / JSON / autoescape block / bracketing formatter, i.e. a defect that treats a program and all its twins alike AND keeps every value is not seen; no custom auto-escape callback by template name",
         "entry forms: child template + layout, from-import, import-as, include, render_captured + render_block / call_macro, Expression API, template_from_str, render_captured_to, loader, custom delimiters, custom formatter, debug off; default undefined behaviour, no auto-escaping, default build (no preserve_order)",
         "results outside the fragment (list + list, list * int, non-string map keys, bool subscripts) are skipped, not judged",
     ]
